@@ -3,7 +3,7 @@
 Proved: (1) guard-first clause of every fill (contracts.ob_fill) and of Container.fillnumpy;
 (2) children-complete: the `children` property of every class enumerates exactly the fillable child slots
 (plus the template slot where the class has one), which is what Container._checkForCrossReferences walks.
-Bounded (native stand-in): the traversal itself -- _checkForCrossReferences on trees with one object at
+Node-level contract of the traversal body: hgv/xref.py.  Bounded (native stand-in): the global induction -- _checkForCrossReferences on trees with one object at
 two positions (siblings, cousins, a node and its own descendant), first and later fills, row-wise and numpy.
 """
 
